@@ -657,6 +657,69 @@ def check_syncend(ck, prog):
     ck.floor("C10-SYNCEND", 6)
 
 
+def check_local_index(ck, prog):
+    """A function-local `lzma_index *i = lzma_index_init(...)` (or lzma_index_dup) is ended, returned or stored away on
+    every path from its successful creation to a return -- `return_if_error()` between creation and lzma_index_end() is
+    the classic way to lose it."""
+    ck.rule("C10-LOCALIDX", "a function-local lzma_index is ended, returned or handed over on every path")
+    n = 0
+    for f in sorted(prog.all_functions("liblzma"), key=lambda f: (f.file, f.line)):
+        if not f.blocks:
+            continue
+        for b, i, e in f.iter_elems():
+            e_ = ex.deref(e)
+            var = None
+            if e_.get("k") == "decl" and e_.get("init") is not None and any(
+                    c.get("fn") in ("lzma_index_init", "lzma_index_dup") for c in ex.calls(e_["init"])):
+                var = e_["n"]
+            for (l, r, op, nd) in ex.writes(e):
+                ls = ex.strip(l)
+                if r is not None and ls is not None and ls.get("k") == "var" and any(
+                        c.get("fn") in ("lzma_index_init", "lzma_index_dup") for c in ex.calls(r)):
+                    var = ls["n"]
+            if var is None or any(v["n"] == var and v.get("param") for v in f.vars):
+                continue
+            n += 1
+            ck.saw_function(f)
+            # blocks that end / hand over the index
+            cut = set()
+            for bb, ii, ee in f.iter_elems():
+                for c in ex.calls(ee, into_refs=True):
+                    if c.get("fn") in ("lzma_index_end",) and c["args"] and ex.show(c["args"][0]) == var:
+                        cut.add(bb.id)
+                for (l2, r2, o2, n2) in ex.writes(ee):
+                    if r2 is not None and ex.show(r2) == var and ex.strip(l2).get("k") in ("mem", "un"):
+                        cut.add(bb.id)
+                x_ = ex.deref(ee)
+                if x_.get("k") == "ret" and x_.get("e") is not None and ex.show(x_["e"]) == var:
+                    cut.add(bb.id)
+            # success edge of the NULL test of var
+            starts = []
+            for tb in f.blocks.values():
+                if tb.term and "cond" in tb.term and len(tb.succs) == 2:
+                    c = ex.strip(tb.term["cond"])
+                    if c.get("k") == "bin" and c["op"] in ("==", "!=") and ex.show(c["l"]) == var and ex.is_const(c["r"], 0):
+                        starts.append(tb.succs[1] if c["op"] == "==" else tb.succs[0])
+            if not starts:
+                starts = [y for y in b.succs if y is not None]
+            seen, st, leak = set(), [y for y in starts if y is not None], False
+            while st:
+                x = st.pop()
+                if x in seen or x in cut:
+                    continue
+                seen.add(x)
+                if x == f.exit:
+                    leak = True
+                    break
+                st.extend(y for y in f.blocks[x].succs if y is not None)
+            ck.ob("C10-LOCALIDX", "%s:%s" % (f.name, var), not leak, common.where(f, e),
+                  "%s: the local lzma_index `%s` is ended or handed over on every path" % (f.name, var) if not leak else
+                  "%s(): a return is reachable after `%s` was created without lzma_index_end(%s) and without handing it over "
+                  "(e.g. through return_if_error()): the lzma_index and its Record groups are leaked" % (f.name, var, var),
+                  key="LOCALIDX:%s:%s" % (f.name, var))
+    ck.floor("C10-LOCALIDX", 1)
+
+
 SIZEKEY_EXCEPT = {
     # (buffer member, size member, storing function): reason
 }
@@ -844,6 +907,9 @@ def check_sizekey(ck, prog, rule="C10-SIZEKEY", files=None, floor=6):
 
 # (function, file, producer call, releasing/transferring calls, which exits must be covered, why)
 LOCALOWN = [
+    ("lzma_raw_coder_init", "filter_common.c", "lzma_next_filter_init", ("lzma_next_end",), "error-after-failure",
+     "a partially initialised filter chain is ended before the error is returned: the callers of lzma_raw_coder_init() "
+     "(raw/Block/stream coders, lzma_filters_update) rely on getting either a complete chain or none"),
     ("stream_decode", "stream_decoder.c", "lzma_block_header_decode", ("lzma_filters_free",), "all",
      "the filter options decoded from the Block Header live in a stack array of stream_decode(): they must be freed "
      "before any return"),
@@ -868,6 +934,14 @@ def check_localown(ck, prog):
         m = PlainGraph(prog, f, cg, rs)
         g = m.g
         gs, sites = guard.find_res(f, producer, ("LZMA_OK",), prog)
+        if not gs and which == "error-after-failure":
+            called = any(c.get("fn") == producer for b, i, e in f.iter_elems() for c in ex.calls(e, into_refs=True))
+            if not called:
+                raise AnalysisBroken("%s: call of %s() not found" % (fn, producer))
+            ck.ob("C10-LOCALOWN", fn, False, common.where(f),
+                  "%s(): the result of %s() is not tested, so a failure returns without %s (%s)" % (
+                      fn, producer, "/".join(releasers), why), key="LOCALOWN:%s" % fn)
+            continue
         if not gs:
             raise AnalysisBroken("%s: result test of %s() not found" % (fn, producer))
         cut_blocks = set()
@@ -883,13 +957,13 @@ def check_localown(ck, prog):
         for x in gs:
             for node in [nd for nd in g.nodes if nd[0] == x.bid]:
                 for (dst, label) in g.succ.get(node, ()):
-                    if label == x.pass_label:
+                    if label == (x.fail_label if which == "error-after-failure" else x.pass_label):
                         src.append(dst)
 
         def dstp(node):
             if node[0] != f.exit:
                 return None
-            if which == "all":
+            if which in ("all", "error-after-failure"):
                 return "return"
             rv = g.get(node[1], "$ret")
             if rv is None or any(v != ok_val for v in rv):
@@ -925,4 +999,5 @@ def run(ck):
     check_cachekey(ck, prog)
     check_sizekey(ck, prog)
     check_syncend(ck, prog)
+    check_local_index(ck, prog)
     check_localown(ck, prog)
